@@ -59,4 +59,13 @@ def hitOfWindow (w : List Nat) : Hit := if w = [] then .none else .many w
 /-- the distinct matched peaks: the peaks of the spectrum `ps` that occur among the matches `ms` (each once) -/
 def matchedPeaks (ps ms : List (Rat × Rat)) : List (Rat × Rat) := ps.filter (fun p => decide (p ∈ ms))
 
+/-- `cov[label][i]` of a coverage dict, 0 when the label has no row -/
+def rowVal (cov : List ((Nat × String) × List Nat)) (l : Nat × String) (i : Nat) : Nat :=
+  ((cov.lookup l).bind (·[i]?)).getD 0
+
+/-- does match `m` count for label `l` at residue `i`? (its label is `l` and `start ≤ i < end`) -/
+def hits {κ : Type} (l : Nat × String) (i : Nat) (m : CovIn κ) : Prop := (m.charge, m.ion) = l ∧ m.start ≤ i ∧ i < m.stop
+
+instance {κ : Type} (l : Nat × String) (i : Nat) (m : CovIn κ) : Decidable (hits l i m) := by unfold hits; infer_instance
+
 end Score
